@@ -89,6 +89,7 @@ type FuncSpec struct {
 	GhostSets   []GhostSet // ghost updates executed at every return, before the postconditions are checked
 	BoundK      int        // bounded mode: loops without invariant unrolled BoundK times (0 = unbounded proof)
 	BoundD      int        // bounded mode: self-recursion inlined to this depth
+	BoundAssume []Clause        // assumed at entry only when this function is itself checked in bounded mode (states the shape bound)
 	Unknown     map[string]bool // package-level variables whose (constant) initial value must not be used: both settings are verified
 }
 
@@ -250,7 +251,7 @@ type parser struct {
 
 var itemKw = map[string]bool{"frame": true, "pred": true, "spec": true, "ghost": true, "lemma": true, "iface": true, "func": true, "extern": true, "axiom": true, "package": true}
 var clauseKw = map[string]bool{"requires": true, "ensures": true, "modifies": true, "reads": true, "panics": true, "decreases": true,
-	"checks": true, "inline": true, "trusted": true, "loop": true, "invariant": true, "pure": true, "returns": true, "nilable": true, "params": true, "nosafety": true, "fresh": true, "ghostset": true, "bounded": true, "unknown": true}
+	"checks": true, "inline": true, "trusted": true, "loop": true, "invariant": true, "pure": true, "returns": true, "nilable": true, "params": true, "nosafety": true, "fresh": true, "ghostset": true, "bounded": true, "unknown": true, "boundedassume": true}
 
 func (p *parser) peek() tok { return p.toks[p.p] }
 func (p *parser) next() tok { t := p.toks[p.p]; p.p++; return t }
@@ -906,6 +907,8 @@ func parseSpecText(file, pkgPath, src string, sp *Specs) (err error) {
 					f.Inline = true
 				case "nosafety":
 					f.NoSafety = true
+				case "boundedassume":
+					f.BoundAssume = append(f.BoundAssume, p.parseClause())
 				case "unknown":
 					if f.Unknown == nil {
 						f.Unknown = map[string]bool{}
